@@ -206,6 +206,32 @@ class CLines:
                         break
         return marks, src
 
+    def _in_try(self, c_file, pyline):
+        py = c_file[:-2] + '.py'
+        if py not in self.cache:
+            try:
+                with open(py, encoding='utf-8') as f:
+                    self.cache[py] = f.read().split('\n')
+            except OSError:
+                self.cache[py] = []
+        lines = self.cache[py]
+        if not 0 < pyline <= len(lines):
+            return False
+        indent = len(lines[pyline - 1]) - len(lines[pyline - 1].lstrip())
+        for j in range(pyline - 2, -1, -1):
+            l = lines[j]
+            if not l.strip():
+                continue
+            ind = len(l) - len(l.lstrip())
+            if ind < indent:
+                indent = ind
+                w = l.strip()
+                if w.startswith(('try:', 'with ', 'finally:', 'except')):
+                    return True
+                if w.startswith('def '):
+                    return False
+        return False
+
     def kind(self, c_file, cline):
         import bisect
         if c_file not in self.cache:
@@ -216,6 +242,10 @@ class CLines:
             return '?'
         text = src.get(marks[i][1], '')
         first = text.replace(':', ' ').replace('(', ' ').split(' ')[0] if text else ''
+        if first == 'return':
+            # 'return' = a return statement lexically inside try/with (its value is parked while the finally clause /
+            # __exit__ runs); 'return-plain' = any other return statement
+            return 'return' if self._in_try(c_file, marks[i][1]) else 'return-plain'
         if first in _KW:
             return first
         if '=' in text and '==' not in text.split('=')[0]:
@@ -227,7 +257,7 @@ def nanny_where(cl, c_file, detail):
     """Statement kind for the first C line mentioned by a nanny report."""
     import re
     m = re.search(r'acquired on lines: ([\d, ]+)', detail)
-    if m and 'NULL argument' not in detail:
+    if m:
         line = int(m.group(1).replace(' ', '').strip(',').split(',')[-1])     # the most recent acquisition
     else:
         m = re.search(r'on line (\d+)', detail)
